@@ -27,6 +27,8 @@ import (
 	"path/filepath"
 	"strconv"
 	"strings"
+	"sync"
+	"sync/atomic"
 	"time"
 
 	"github.com/paulmach/osm"
@@ -71,8 +73,12 @@ type Obs struct {
 	FSB  []int64 `json:"fsb,omitempty"`  // trace: after every returned object; stop: [value at the stop]
 	PFSB []int64 `json:"pfsb,omitempty"` // same for PreviousFullyScannedBytes
 	// stop mode: the second scanners
-	Resumed        []uint64 `json:"resumed,omitempty"`
-	ResumedErr     int      `json:"resumed_err,omitempty"`
+	Resumed     []uint64 `json:"resumed,omitempty"`
+	ResumedFSB  []int64  `json:"resumed_fsb,omitempty"`  // offsets the restarted scanner reports
+	ResumedPFSB []int64  `json:"resumed_pfsb,omitempty"` // after each of its objects
+	ResumedErr  int      `json:"resumed_err,omitempty"`
+	// shared mode: a Read of the first scanner was still in progress when its Close returned
+	InFlight       bool     `json:"in_flight,omitempty"`
 	PrevResumed    []uint64 `json:"prev_resumed,omitempty"`
 	PrevResumedErr int      `json:"prev_resumed_err,omitempty"`
 	StopShort      bool     `json:"stop_short,omitempty"` // fewer than k objects could be scanned
@@ -246,8 +252,28 @@ func runUnit(j *Job, u int) Obs {
 		s.Close()
 		cancel()
 		if fsb >= 0 && fsb <= int64(len(j.Data)) {
-			r, err := scanAll(j.Data[fsb:], j)
-			o.Resumed, o.ResumedErr = r, errClass(err)
+			// the restart: on data[fsb:] for even k, by Seek(fsb) on a reader over the whole data for
+			// odd k (the reported offsets are relative to where the reader STARTED either way);
+			// for k = 2,3 mod 4 the restarted scanner is asked for its Header() first
+			var rd io.Reader = bytes.NewReader(j.Data[fsb:])
+			if u%2 == 1 {
+				br := bytes.NewReader(j.Data)
+				br.Seek(fsb, io.SeekStart)
+				rd = br
+			}
+			s2 := osmpbf.New(context.Background(), rd, j.Procs)
+			s2.SkipNodes, s2.SkipWays, s2.SkipRelations = j.Skip[0], j.Skip[1], j.Skip[2]
+			if (u/2)%2 == 1 {
+				s2.Header()
+			}
+			o.Resumed, o.ResumedFSB, o.ResumedPFSB = []uint64{}, []int64{}, []int64{}
+			for s2.Scan() {
+				o.Resumed = append(o.Resumed, Tok(s2.Object()))
+				o.ResumedFSB = append(o.ResumedFSB, s2.FullyScannedBytes())
+				o.ResumedPFSB = append(o.ResumedPFSB, s2.PreviousFullyScannedBytes())
+			}
+			o.ResumedErr = errClass(s2.Err())
+			s2.Close()
 		} else {
 			o.ResumedErr = 2
 		}
@@ -258,7 +284,73 @@ func runUnit(j *Job, u int) Obs {
 			o.PrevResumedErr = 2
 		}
 	}
+	if j.Mode == "shared" {
+		// ONE ReadSeeker for the first scanner and for the restart (like an *os.File): scan k
+		// objects, Close, Seek(fsb), new scanner on the same reader.  Reads are slow (2 ms) so
+		// that the first scanner's read-ahead is inside a Read when Close is called; Close must
+		// have waited for it.
+		sr := &slowReader{r: bytes.NewReader(j.Data), delay: 2 * time.Millisecond}
+		s := osmpbf.New(context.Background(), sr, j.Procs)
+		s.SkipNodes, s.SkipWays, s.SkipRelations = j.Skip[0], j.Skip[1], j.Skip[2]
+		n := 0
+		for n < u && s.Scan() {
+			o.Objs = append(o.Objs, Tok(s.Object()))
+			n++
+		}
+		o.StopShort = n < u
+		fsb := s.FullyScannedBytes()
+		o.FSB, o.PFSB = []int64{fsb}, []int64{s.PreviousFullyScannedBytes()}
+		s.Close()
+		o.InFlight = atomic.LoadInt32(&sr.inRead) != 0
+		sr.mu.Lock()
+		sr.delay = 0
+		sr.mu.Unlock()
+		if fsb >= 0 && fsb <= int64(len(j.Data)) {
+			sr.Seek(fsb, io.SeekStart)
+			s2 := osmpbf.New(context.Background(), sr, j.Procs)
+			s2.SkipNodes, s2.SkipWays, s2.SkipRelations = j.Skip[0], j.Skip[1], j.Skip[2]
+			o.Resumed = []uint64{}
+			for s2.Scan() {
+				o.Resumed = append(o.Resumed, Tok(s2.Object()))
+			}
+			o.ResumedErr = errClass(s2.Err())
+			s2.Close()
+		} else {
+			o.ResumedErr = 2
+		}
+	}
 	return o
+}
+
+// slowReader: a ReadSeeker whose reads take a while once the first block has been read.
+type slowReader struct {
+	mu     sync.Mutex
+	r      *bytes.Reader
+	inRead int32
+	nReads int
+	delay  time.Duration
+}
+
+func (s *slowReader) Read(p []byte) (int, error) {
+	atomic.AddInt32(&s.inRead, 1)
+	defer atomic.AddInt32(&s.inRead, -1)
+	s.mu.Lock()
+	s.nReads++
+	d := s.delay
+	slow := s.nReads > 6 && d > 0 // the first two blocks are read at full speed
+	s.mu.Unlock()
+	if slow {
+		time.Sleep(d)
+	}
+	s.mu.Lock()
+	defer s.mu.Unlock()
+	return s.r.Read(p)
+}
+
+func (s *slowReader) Seek(off int64, whence int) (int64, error) {
+	s.mu.Lock()
+	defer s.mu.Unlock()
+	return s.r.Seek(off, whence)
 }
 
 // IsWorker reports whether this process was started as a scan worker.
